@@ -45,6 +45,8 @@ pub struct LegacyLog {
 impl Log {
     pub fn from_legacy(legacy: LegacyLog, proxy: String) -> Self {
         let now = chrono::Utc::now().timestamp() as u128;
+        #[cfg(redirectionio_verif)]
+        let now = crate::verif_hooks::now().timestamp() as u128;
 
         Log {
             code: legacy.status_code,
@@ -82,6 +84,8 @@ impl Log {
         let mut content_type = None;
         let mut ips = Vec::new();
         let now = chrono::Utc::now().timestamp_millis() as u128;
+        #[cfg(redirectionio_verif)]
+        let now = crate::verif_hooks::now().timestamp_millis() as u128;
         let duration = now.checked_sub(request_start_time);
 
         if let Ok(addr) = client_ip.parse::<Addr>() {
